@@ -98,16 +98,29 @@ def run_unit(unit, tier):
     rs = _rules(tier)
     docs = family(tier)
     for ri in range(unit[0], unit[1]):
-        r = T.build_rule(rs[ri])
+        r = build(res, rs[ri], docs[0])
+        if r is None:
+            continue
         for di, doc in enumerate(docs):
             check_case(res, rs[ri], r, doc, key=(ri, di))
     res.sample({"rule": rs[unit[0]], "doc": docs[0]})
     return res
 
 
+def build(res, rt, doc):
+    try:
+        return T.build_rule(rt)
+    except BaseException as e:
+        res.violation("build:%s:%s" % (type(e).__name__, cshape(rt[2])), "building %s raised %r" % (T.show(rt), e),
+                      {"rule": rt, "doc": doc}, observed=repr(e))
+        return None
+
+
 def replay(case):
     res = Result()
-    check_case(res, case["rule"], T.build_rule(case["rule"]), case["doc"], key=("replay",))
+    r = build(res, case["rule"], case["doc"])
+    if r is not None:
+        check_case(res, case["rule"], r, case["doc"], key=("replay",))
     return list(res.violations.values())
 
 
